@@ -1069,3 +1069,6 @@ CASES += [
 CASES += [
  dict(id='mut-ordering-export-names-run-together', kind='fire', file=M, old='            println!("{}", v);', new='            print!("{}", v);', expect={'C09': '-r', 'C11': '-r'}, control=False),
 ]
+CASES += [
+ dict(id='mut-clique-counting-list-joined-by-blanks', kind='fire', file=C, old='vertices.iter().cloned().collect::<Vec<String>>().join(", "),', new='vertices.iter().cloned().collect::<Vec<String>>().join(" "),', expect={'C16': 'list separator'}, control=False),
+]
